@@ -27,8 +27,6 @@ def install(ctx):
         ctx.event('Fitter.fit:post')
         tr = REG.get(id(self))
         if tr is not None and CUR.get('phot') is not None:
-            for b in probe.inv_fi(result):
-                ctx.violation('fit3d:inv-fi', b, CUR['wit'])
             valid, flux, error = CUR['phot']
             CUR['summary'] = fitcheck.check_fit3d(ctx, tr, valid, flux, error, result, CUR['wit'])
         return True
@@ -65,16 +63,16 @@ def run(ctx):
                'theta*dmin is kept >= 1e-6 relative away from the smallest tabulated aperture (unit round trips may land 1 ulp either side)',
                'float32 memmap compared with a bound of 3e-7*(1+max|log10 F|) dex; float32 (1E) tables with 1e-7 dex (scipy interpolates them in float32)',
                'chi^2 ties between distances: any minimiser accepted')
-    ctx.require_events('Fitter.__init__:post', 'Fitter.fit:post', 'grid_checked', 'fluxes_checked', 'too_small_refused')
+    ctx.require_events('Fitter.__init__:post', 'Fitter.fit:post', 'grid_checked', 'fluxes_checked')
     ctx.require_regimes('n=1', 'n=2', 'n>2', 'beyond_table', 'av_clipped', 'av_interior', 'best_first', 'best_mid',
-                        'best_last', 'style:v1', 'style:v2name', 'style:v2wav', 'memmap_on', 'memmap_off', 'unit:pc', 'unit:cm')
+                        'best_last', 'style:v1', 'style:v2name', 'style:v2wav', 'memmap_on', 'memmap_off', 'unit:pc', 'unit:cm', 'angle:arcmin', 'angle:deg')
     n_pkg = 14 if ctx.quick else 160
     n_rng = 3
     n_src = 12 if ctx.quick else 25
     for ip in range(n_pkg):
         d = ctx.newdir('p')
         n_models = int(rng.choice([1, 3, 8, 20]))
-        n_bands = int(rng.integers(2, 7))
+        n_bands = int(rng.integers(1, 7))        # a single-filter fitter is inside the quantifier (>=1 fitted point)
         n_ap = int(rng.integers(2, 9))
         names = gen.model_names(rng, n_models)
         wav = gen.band_wavelengths(rng, n_bands)
@@ -148,20 +146,29 @@ def run(ctx):
                 th_bad = theta.copy()
                 fb = int(rng.integers(n_bands))
                 th_bad[fb] = aps[0] * (1 - 10 ** rng.uniform(-5, -0.3)) / (dmin_k * 1000.0)
+                # (outside C02's quantifier - refusal below the table is C13's statement: observed, not judged here)
                 try:
                     Fitter(list(filt), th_bad * u.arcsec, d, extinction_law=law, av_range=(0., 1.),
                            distance_range=dr_q, use_memmap=memmap)
                 except Exception:
                     ctx.event('too_small_refused')
                 else:
-                    ctx.violation('grid:too-small-not-refused', 'theta*dmin below the smallest tabulated aperture was accepted',
-                                  dict(wit0, theta=th_bad))
+                    ctx.event('too_small_accepted(outside the quantifier)')
+            # apertures may be given in any angle unit; the A_V range is a constructor argument: one Fitter per range
+            aunit = [u.arcsec, u.arcsec, u.arcmin, u.deg][int(rng.integers(4))]
+            ctx.regime('angle:' + str(aunit))
+            ranges = [(-1e3, 1e3), (9.0, 40.0), (-25.0, 5.0), (0, 40), (7.5, 7.5)]
+            fitters = []
             try:
-                fitter = Fitter(list(filt), theta * u.arcsec, d, extinction_law=law, av_range=(0., 1.),
-                                distance_range=dr_q, use_memmap=memmap)
+                for (lo_, hi_) in ranges:
+                    fitters.append(Fitter(list(filt), (theta * u.arcsec).to(aunit), d, extinction_law=law, av_range=(lo_, hi_),
+                                          distance_range=dr_q, use_memmap=memmap))
             except Exception as exc:
                 ctx.violation('grid:fitter-construction-failed', 'Fitter() raised inside the quantifier: %r' % (exc,), wit0)
                 continue
+            fitter = fitters[0]
+            # the unit round trip of the apertures is part of "theta": use the values the user's quantity converts back to
+            theta = np.asarray((theta * u.arcsec).to(aunit).to(u.arcsec).value, float)
             dist = np.asarray(fitter.models.distances.to(u.kpc).value, float)
             gok = fitcheck.check_distance_grid(ctx, dist, dmin_k, dmax_k, step, wit0)
             ctx.event('grid_checked')
@@ -171,9 +178,6 @@ def run(ctx):
                      sample=dict(wit0, n_distances=n) if ip < 2 else None)
             if not gok:
                 continue
-            if fitter.models.logd is None or not np.allclose(fitter.models.logd, np.log10(dist), rtol=0, atol=1e-12):
-                ctx.violation('grid:logd-stale', 'log-distance table of the fitter does not match its distances', wit0)
-                continue
             logm = fitcheck.grid_logm(conv, aps, theta, dist)
             if np.any(theta[None, :] * dist[:, None] * 1000.0 > aps[-1]):
                 ctx.regime('beyond_table')
@@ -181,19 +185,24 @@ def run(ctx):
             # interpolated by scipy in float32 arithmetic: relative 1e-7 on the flux = 5e-8 dex
             delta = 3e-7 * (1 + float(np.max(np.abs(logm)))) if (memmap and is_v2) else (1e-7 if fmt == 'E' else 0.0)
             # model fluxes held by the fitter vs truth (rows by name)
-            mf = np.asarray(fitter.models.fluxes.to(u.mJy).value, float)
-            mnames = [str(x).strip() for x in fitter.models.names]
-            rowidx = [names.index(x) for x in mnames] if sorted(mnames) == sorted(names) else None
-            if rowidx is None:
-                ctx.violation('grid:names', 'fitter model names are not the package names', dict(wit0, got=mnames[:8]))
-                continue
-            ref = np.asarray(10.0 ** logm[rowidx], float)
-            rt = 1e-9 if not delta else 5e-7
-            if mf.shape != ref.shape or not O.close(mf, ref, rtol=rt):
-                ctx.violation('grid:model-fluxes', 'per-distance model fluxes are not the tabulated fluxes interpolated to theta*d, clamped above, times (1kpc/d)^2',
-                              dict(wit0, maxrel=O.maxrel(mf, ref) if mf.shape == ref.shape else 'shape %r vs %r' % (mf.shape, ref.shape)))
-                continue
-            ctx.event('fluxes_checked', int(mf.size))
+            # state probe: the per-distance model fluxes held by the fitter.  This looks at internal state, so a different
+            # layout (shape/attribute) is not judged - the fits below decide then; a same-shaped table with wrong values is.
+            try:
+                mf = np.asarray(fitter.models.fluxes.to(u.mJy).value, float)
+                mnames = [str(x).strip() for x in fitter.models.names]
+                rowidx = [names.index(x) for x in mnames] if sorted(mnames) == sorted(names) else None
+            except Exception:
+                mf, rowidx = None, None
+            if rowidx is not None and mf is not None and mf.shape == (len(names), len(dist), n_bands):
+                ref = np.asarray(10.0 ** logm[rowidx], float)
+                rt = 1e-9 if not delta else 5e-7
+                if not O.close(mf, ref, rtol=rt):
+                    ctx.violation('grid:model-fluxes', 'per-distance model fluxes are not the tabulated fluxes interpolated to theta*d, clamped above, times (1kpc/d)^2',
+                                  dict(wit0, maxrel=O.maxrel(mf, ref)))
+                    continue
+                ctx.event('fluxes_checked', int(mf.size))
+            else:
+                ctx.event('fluxes_state_probe_unavailable')
 
             logd = np.log10(dist)
             for isrc in range(n_src):
@@ -210,8 +219,7 @@ def run(ctx):
                 flux[nine] = 10.0 ** np.clip(pred[nine], -200, 200)
                 err[nine] = flux[nine] * 0.1
                 src = gen.build_source('s%d_%d_%d' % (ip, ir, isrc), valid, flux, err)
-                for (lo, hi) in [(-1e3, 1e3), (a0 + 1.0, a0 + 30.0), (a0 - 30.0, a0 - 1.0), (0.0, 40.0), (a0, a0)]:
-                    fitter.av_range = (lo, hi)
+                for fitter, (lo, hi) in zip(fitters, ranges):
                     tr = fitcheck.GridTruth(names, logm, k, lo, hi, delta=delta, logd=logd, tag=str(pinfo))
                     REG.clear()
                     REG[id(fitter)] = tr
